@@ -146,12 +146,13 @@ Definition is_valid_exemplar_metric_orig (ftype fname : str) (s : sample) : bool
   || (contains_sub ftype S_gaugehistogram && ends_with S_bucket (s_name s))
   || (contains_sub ftype S_histogram && ends_with S_bucket (s_name s))
   || str_eqb (s_name s) fname.
-(* the repaired source (fixes/C04-exemplar-eligibility.diff): the native-histogram clause is inside the histogram test *)
+(* the repaired source (fixes/C04-exemplar-eligibility.diff, C04-exemplar-type-equality.diff): the native-histogram clause is
+   inside the histogram test, and the type is compared for equality - the pinned `metric.type in ('gaugehistogram')` is a
+   substring test on a string, under which a GAUGE family ('gauge' is a substring) with a *_bucket sample was eligible *)
 Definition is_valid_exemplar_metric (ftype fname : str) (s : sample) : bool :=
-  (* `metric.type in ('gaugehistogram')` is a substring test on a string, not tuple membership *)
   (str_eqb ftype S_counter && ends_with S_total (s_name s))
-  || (contains_sub ftype S_gaugehistogram && ends_with S_bucket (s_name s))
-  || (contains_sub ftype S_histogram && (ends_with S_bucket (s_name s) || str_eqb (s_name s) fname)).
+  || (str_eqb ftype S_gaugehistogram && ends_with S_bucket (s_name s))
+  || (str_eqb ftype S_histogram && (ends_with S_bucket (s_name s) || str_eqb (s_name s) fname)).
 
 (* exemplar label NAMES and the unit are written raw by the pinned source (findings F3, F5); [exq] = true
    models the repaired source: names through escape_label_name like sample label names, unit escaped *)
